@@ -188,6 +188,56 @@ theorem filterMap_logAt_range (o : Obj X E) (ys : List X) :
     (List.range ys.length).filterMap (logAt o ys) = ys.filterMap (logged o) := by
   rw [filterMap_logAt_take, List.take_length]
 
+/-! ### mutable work items -/
+
+/-- `wrap_penalty` hands its callees a copy: whatever the user's cost and penalty write, the decorated objective
+    leaves the vector it was handed as it was -/
+theorem decorated2_keeps (useRange : Bool) (inBox : X → Bool) (top : E) (add : E → E → E) (cost pen : Proc X E) (y : X) :
+    (decorated2 useRange inBox top add cost pen y).2 = y := rfl
+
+/-- the value of the decorated procedure is the energy of the objective record -/
+theorem decorated2_val (K : X → X) (useRange : Bool) (inBox : X → Bool) (top : E) (add : E → E → E)
+    (cost pen : Proc X E) (y : X) :
+    (decorated2 useRange inBox top add cost pen y).1 = (objOfProcs K inBox useRange top add cost pen).energy y := by
+  unfold decorated2 wrapPenaltyP wrapBoundsP objOfProcs Obj.energy
+  by_cases h : (useRange && !inBox y) = true
+  · simp only [h, if_true]
+  · simp only [h]
+    rfl
+
+theorem itemsAfter_id (f : Proc X E) (sh : Nat → Bool) (hf : ∀ y, (f y).2 = y) : ∀ ys : List X,
+    itemsAfter f sh ys = ys := by
+  intro ys
+  unfold itemsAfter
+  apply List.ext_getElem
+  · simp
+  · intro i h1 h2
+    simp [hf]
+
+theorem evalOrderP_eq (o : Obj X E) (f : Proc X E) (hf : ∀ y, (f y).1 = o.energy y) (ys : List X) :
+    ∀ π : List Nat, evalOrderP f ys π = π.filterMap (valAt o ys) := by
+  intro π
+  induction π with
+  | nil => rfl
+  | cons i π ih =>
+    unfold evalOrderP
+    cases h : ys[i]? with
+    | none => simp [ih, valAt, h]
+    | some y => simp [ih, valAt, h, hf]
+
+/-- with the pinned `wrap_penalty` the step on mutable work items IS the step of Model/Schedule `step2With`,
+    for every procedure pair, sharing discipline and evaluation order (a permutation or not) -/
+theorem step2Proc_eq [LT E] [DecidableLT E] (K : X → X) (inBox : X → Bool) (useRange : Bool) (top : E)
+    (add : E → E → E) (cost pen : Proc X E) (sh : Nat → Bool) (π : List Nat) (trials : List X) (s : DE X E) :
+    step2Proc K inBox useRange top add cost pen sh π trials s =
+      step2With (objOfProcs K inBox useRange top add cost pen) π trials s := by
+  unfold step2Proc step2ProcWith step2With
+  simp only [evalOrder_fst, evalOrder_snd]
+  rw [itemsAfter_id _ sh (decorated2_keeps useRange inBox top add cost pen),
+    evalOrderP_eq (objOfProcs K inBox useRange top add cost pen) _
+      (decorated2_val K useRange inBox top add cost pen)]
+  rfl
+
 /-! ### ensembles -/
 
 variable {M : Type}
